@@ -61,6 +61,8 @@ def lit_src(v):
         return 'float(%r)' % v[1]
     if k == 'enum':
         return '%s[%r]' % (v[1], v[2])
+    if k == 'strlike':
+        return '%s(%r)' % (v[1], v[2])
     if k == 'list' and not v[1]:
         return '[]'
     raise ValueError(v)
@@ -272,8 +274,8 @@ def class_src(c, all_specs):
         if c.get('str_mixin'):
             L.append('class %s(%s):' % (name, ', '.join(mix + ['str', 'enum.Enum'])))
             for i, m in enumerate(c['members']):
-                # values deliberately differ from the names and cross over
-                L.append('    %s = %r' % (m, 'val_' + c['members'][(i + 1) % len(c['members'])]))
+                # each member's value is the *name* of the next member
+                L.append('    %s = %r' % (m, c['members'][(i + 1) % len(c['members'])]))
         else:
             L.append('class %s(%s):' % (name, ', '.join(mix + ['enum.Enum'])))
             for i, m in enumerate(c['members']):
